@@ -224,13 +224,13 @@ type HarnessPanic struct {
 
 // Ctx is what a run function gets.
 type Ctx struct {
-	T    *Tape
-	L    *Log
-	C    map[string]int64 // counters (fault kinds fired, probes)
-	Sig  uint64           // run signature (hash of the abstracted history)
-	NonT bool             // non-trivial by the property's rule
-	Desc []string         // human description of the run (config, ops) for samples/replay
-	Prop string
+	T       *Tape
+	L       *Log
+	C       map[string]int64 // counters (fault kinds fired, probes)
+	Sig     uint64           // run signature (hash of the abstracted history)
+	NonT    bool             // non-trivial by the property's rule
+	Desc    []string         // human description of the run (config, ops) for samples/replay
+	Prop    string
 	devIdle int
 	// Sub is set by the driver: a hook to run one workload in a fresh process (C20).
 	Env map[string]string
@@ -280,6 +280,18 @@ func tick() { progressTick++ }
 
 //go:norace
 func ticks() uint64 { return progressTick }
+
+// Tick lets the scheduler count its decisions as progress (an interleaved phase logs its events
+// only when it is over).
+//
+//go:norace
+func Tick() { progressTick++ }
+
+// CPUNow, HangCPU and SpinningIn are shared with the scheduler, which applies the same rule to the
+// task that holds the baton.
+func CPUNow() time.Duration                             { return cpuNow() }
+func HangCPU() time.Duration                            { return hangCPU }
+func SpinningIn(buf *[]byte, g uint64) (string, string) { return spinningInBuf(buf, g) } // (own buffer: Exec's watcher may be looking at the same time)
 
 // cpuNow is the CPU time this process has used (user + system). A run that spends hangCPU of it
 // inside one library call without producing a single simulator event is not slow, it is not
@@ -452,13 +464,15 @@ func blockedStack(g uint64) (bool, uint64, []byte) {
 
 // spinningIn reports the innermost frame of goroutine g among library and harness frames when g is
 // running (or runnable) and that frame is library code.
-func spinningIn(g uint64) (string, string) {
-	n := runtime.Stack(watchBuf, true)
-	for n >= len(watchBuf) {
-		watchBuf = make([]byte, 2*len(watchBuf))
-		n = runtime.Stack(watchBuf, true)
+func spinningIn(g uint64) (string, string) { return spinningInBuf(&watchBuf, g) }
+
+func spinningInBuf(bufp *[]byte, g uint64) (string, string) {
+	n := runtime.Stack(*bufp, true)
+	for n >= len(*bufp) {
+		*bufp = make([]byte, 2*len(*bufp))
+		n = runtime.Stack(*bufp, true)
 	}
-	all := watchBuf[:n]
+	all := (*bufp)[:n]
 	var hb [40]byte
 	head := append(strconv.AppendUint(append(hb[:0], "goroutine "...), g, 10), " ["...)
 	for off := 0; off < len(all); {
@@ -478,6 +492,9 @@ func spinningIn(g uint64) (string, string) {
 		}
 		lines := strings.Split(string(blk), "\n")
 		for i, l := range lines {
+			if strings.HasPrefix(l, "verif/sim/sched.YieldInner") || strings.HasPrefix(l, libPrefix+"/vyield.") {
+				continue // the instrumented build's hook, called from every loop iteration of the library
+			}
 			if strings.HasPrefix(l, "verif/sim/") || strings.HasPrefix(l, "main.") {
 				return "", ""
 			}
